@@ -313,7 +313,7 @@ class Client:
 
     def __get_capabilities(self) -> bool:
         code, data, capabilities = self.__read_response()
-        if code == "NO":
+        if code == b"NO":
             return False
 
         for l in capabilities.splitlines():
@@ -540,7 +540,7 @@ class Client:
 
         :rtype: list of string
         """
-        return self.__capabilities["SASL"].split()
+        return (self.__capabilities["SASL"] or "").split()
 
     def has_tls_support(self) -> bool:
         """Tells if the server has STARTTLS support or not.
